@@ -101,7 +101,8 @@ def _slack_case(rng, stream):
         b = d[2][0] if d[2] else None
         box[d[0]] = (Fraction(0), Fraction(1)) if b is None else (Fraction(_unf64(b[0])), Fraction(_unf64(b[1])))
     well_conditioned = all(e != 0 for e in exact_interval_ends(sorted(mons.items()), box))
-    ft, qt = render_rat(rng, sorted(mons.items()), ids)
+    # un-normalised spellings (repeated ids in a linear part, repeated monomials of a polynomial) for the exact streams
+    ft, qt = render_rat(rng, sorted(mons.items()), ids, split=0.35 if stream != "rational" else 0.0)
     if ft[0] == "unset":
         ft, qt = ["const", f64(0.0)], ["const", 0]
     cid = 7
